@@ -30,12 +30,12 @@ def plan(tier, seed):
         timeout=1500 if quick else 8 * 3600,
         rule=("one engine process per case: Hash {8,16,64} x Threads 1..4 x 3 synthetic nets; 3..10 consecutive roots, each a pawnless <=4-man placement of "
               "the current material class (uniformly random, or stratified over every distance-to-mate value of the class incl. draws, then one of the 8 "
-              "board symmetries) with half-move clock 0..99 (40% 0..30, 30% within 4 plies of the 50-move boundary 100-plies_to_mate, 30% uniform); the "
+              "board symmetries) with half-move clock 0..99 (30% 0..30, 40% within 4 plies of the 50-move boundary 100-plies_to_mate, 30% uniform); the "
               "class changes with probability 1/4 per root (regeneration; both colour assignments are separate classes) and sometimes 5-6 non-tablebase "
               "roots are searched in between (the engine drops its table). Each root: 'go infinite', wait for 'info depth 3' (iteration 2 complete) or an "
               "exact 'mate 1' at depth 2, 'stop'. Non-trivial = root (distinct by FEN, configuration and table history) with DTM >= 3 moves or hmc >= 60."),
-        floors=({"tablebase roots searched": 500, "non-trivial root (DTM >= 3 or hmc >= 60)": 350, "root won, mate inside the 50-move limit": 100,
-                 "root lost, mate inside the 50-move limit": 100, "root drawn": 40, "root beyond the 50-move limit, class without zeroing moves": 30,
+        floors=({"tablebase roots searched": 500, "non-trivial root (DTM >= 3 or hmc >= 60)": 350, "root won, mate inside the 50-move limit": 60,
+                 "root lost, mate inside the 50-move limit": 100, "root drawn": 40, "root beyond the 50-move limit, class without zeroing moves": 12,
                  "reuse of the resident table": 250, "class switch": 40, "first table of the process": 100, "Threads > 1": 150,
                  "Hash 8": 80, "Hash 16": 80, "Hash 64": 80} if quick else
                 {"tablebase roots searched": 12000, "non-trivial root (DTM >= 3 or hmc >= 60)": 8000, "root drawn": 1000,
